@@ -16,6 +16,12 @@ pub fn initial_key(dcid: &[u8], sender: Side) -> MKey {
 /// exactly `total_len` bytes (padding adjusted inside the protected payload), optionally with
 /// a different packet number.
 pub fn reforge_initial(orig: &WPacket, total_len: usize, pn: u64) -> Vec<u8> {
+    reforge_initial_with(orig, total_len, pn, &orig.dcid, &orig.token)
+}
+
+/// As `reforge_initial`, with a destination CID and token of the caller's choice (the Initial keys
+/// follow the destination CID, so the packet stays well-formed and decryptable)
+pub fn reforge_initial_with(orig: &WPacket, total_len: usize, pn: u64, dcid: &[u8], token: &[u8]) -> Vec<u8> {
     let frames = wire::parse_frames(&orig.payload).unwrap_or_default();
     let mut payload = vec![];
     for f in &frames {
@@ -26,13 +32,13 @@ pub fn reforge_initial(orig: &WPacket, total_len: usize, pn: u64) -> Vec<u8> {
     let f = Forge {
         ty: PType::Initial,
         version: orig.version,
-        dcid: &orig.dcid,
+        dcid,
         scid: &orig.scid,
-        token: &orig.token,
+        token,
         pn,
         key_phase: false,
         spin: false,
-        key: initial_key(&orig.dcid, Side::Client),
+        key: initial_key(dcid, Side::Client),
     };
     let min = f.build(&payload, 0);
     if total_len <= min.len() {
